@@ -23,6 +23,8 @@ def prop(x, _depth=0):
     if hasattr(x, "__dict__"):
         d = {"__class__": type(x).__module__ + "." + type(x).__name__}
         for k, v in sorted(vars(x).items()):
+            if k.startswith("_"):
+                continue        # private attributes (e.g. a benign memo) are not part of the observable structure
             d[k] = prop(v, _depth + 1)
         return d
     return repr(x)
